@@ -339,6 +339,7 @@ struct tmodel
     bool acquiring = false;
     int  free_at_start = 0, overlaps = 0;
     long objs_at_start = 0;
+    std::size_t first_next_block = 0; // block size the stack's allocator would use next, when the thread got the stack
 };
 static tmodel T[MAXT];
 
@@ -346,7 +347,7 @@ struct counters
 {
     long acquires = 0, adoptions = 0, creations = 0, scopes = 0, scopes_over_blocks = 0, scopes_grown_twice = 0, grows = 0,
          size_exceptions = 0, reacquire_after_release = 0, releases = 0, excl_checks = 0, points = 0, max_stacks = 0,
-         inside_checks = 0, contended_acquires = 0;
+         inside_checks = 0, contended_acquires = 0, release_checks = 0, release_checks_grown = 0;
 };
 static counters C;
 
@@ -389,6 +390,7 @@ static void acquire_end(int id, const tstack* got, bool was_released_before)
     t.acquiring = false;
     t.cur       = got;
     t.has       = true;
+    t.first_next_block = const_cast<tstack*>(got)->stack_.get_allocator().next_block_size();
     long created = g_stackobj_allocs[id] - t.objs_at_start;
     if (created)
         ++C.creations;
@@ -716,6 +718,29 @@ extern "C" void verif_atomic_point(const char* what, const void* object, int kin
         return; // byte counter of heap_allocator's global leak checker: not part of the stack list
     if (kind == 1 && !g_head)
         g_head = object;
+#if TSM >= 2
+    // state oracle at the moment a thread marks its stack free (this hook runs BEFORE the store): the stack must already be
+    // cleared, because from the store on another thread may adopt and re-initialise it. There is no atomic operation
+    // between the store and the end of the release, so this cannot be left to the interleavings.
+    if (kind == 2 && std::strcmp(what, "atomic.store") == 0)
+    {
+        tmodel& t = T[me()];
+        if (t.releasing && t.cur && object == static_cast<const void*>(&((const lnode*)t.cur)->in_use_))
+        {
+            ++C.release_checks;
+            auto& ar = t.cur->stack_.arena_;
+            if (const_cast<tstack*>(t.cur)->stack_.get_allocator().next_block_size() > t.first_next_block)
+                ++C.release_checks_grown; // the stack grew while this thread owned it: the cache was non-empty before the release
+            if (ar.cache_size() != 0)
+            {
+                viol("released-before-cleared",
+                     fmt("the stack is marked free while its arena still caches %zu block(s): the owner gives the stack up before it has "
+                         "finished shrink_to_fit(), another thread can adopt and re-initialise it meanwhile",
+                         ar.cache_size()));
+            }
+        }
+    }
+#endif
     if (!sched::in_execution())
         return;
     ++C.points;
@@ -1187,6 +1212,8 @@ static void add_counters(counters& a, const counters& b)
     a.points += b.points;
     a.inside_checks += b.inside_checks;
     a.contended_acquires += b.contended_acquires;
+    a.release_checks += b.release_checks;
+    a.release_checks_grown += b.release_checks_grown;
     a.max_stacks = std::max(a.max_stacks, b.max_stacks);
 }
 static std::string counters_json(const counters& c)
@@ -1204,6 +1231,8 @@ static std::string counters_json(const counters& c)
         .num("stack_growths", c.grows)
         .num("bad_allocation_size_exceptions", c.size_exceptions)
         .num("allocations_checked_inside_stack", c.inside_checks)
+        .num("releases_checked_cleared_at_the_store", c.release_checks)
+        .num("releases_checked_of_a_stack_that_had_grown", c.release_checks_grown)
         .num("exclusivity_checks", c.excl_checks)
         .num("atomic_operations_as_scheduling_points", c.points)
         .num("max_stacks_in_list", c.max_stacks)
